@@ -67,7 +67,7 @@ def same_class(res, key):
 
 
 class Minimiser:
-    def __init__(self, engine_name, engine, verif_seed, hash_seed, c_locale, budget_runs=300, budget_s=90):
+    def __init__(self, engine_name, engine, verif_seed, hash_seed, c_locale, budget_runs=200, budget_s=45):
         self.engine_name, self.engine = engine_name, engine
         self.lane = lanes.Lane(engine_name, verif_seed, 0, hash_seed=hash_seed, c_locale=c_locale)
         self.budget_runs, self.budget_s = budget_runs, budget_s
@@ -243,74 +243,95 @@ def explore(prop, tier, verif_seed, runs_override=None, budget_override=None, wo
     log('[%s] %d runs, %d with mismatches; classes: %s' % (prop, agg['runs'], len(failing), {k: len(v) for k, v in by_key.items()}))
     os.makedirs(REPLAY_DIR, exist_ok=True)
     known_screened = {}
-    for key, items in sorted(by_key.items()):
-        # smallest plans first
-        items.sort(key=lambda t: len(core.canon(t[1].get('plan', {}))))
-        full_budget = 2 if tier == 'quick' else 6      # full minimisations spent on plans that look like a listed finding
-        tried = 0
-        for job, res, m in items:
-            plan = res.get('plan')
-            if plan is None:
-                continue
-            pre = [f for f in known if engine.matches_finding(plan, m, f)]
-            if pre and full_budget <= 0:
-                # looks like a listed finding even before minimisation and enough of those were
-                # minimised to the listed signature already; anything that does NOT look like it
-                # is still minimised and judged below
-                known_screened[pre[0]['id']] = known_screened.get(pre[0]['id'], 0) + 1
-                continue
-            if tried >= (8 if tier == 'quick' else 20):
+    max_reports = 3 if tier == 'quick' else 8
+    minis = {}
+
+    def mini_for(job):
+        lane_no = job['index'] % core.N_LANES
+        hs = core.lane_hash_seed(verif_seed, lane_no)
+        c_loc = lane_no in lanes.C_LOCALE_LANES
+        if (hs, c_loc) not in minis:
+            minis[(hs, c_loc)] = Minimiser(engine_name, engine, verif_seed, hs, c_loc)
+        return minis[(hs, c_loc)], hs, c_loc
+
+    cf_budget = 40 if tier == 'quick' else 400     # counterfactual re-runs spent on screening un-minimised plans
+    try:
+        for key, items in sorted(by_key.items()):
+            if len(violations) >= max_reports and not keep_going:
+                log('[%s] %d violation(s) reported; further classes (%s...) not minimised in this run' % (prop, len(violations), key))
                 break
-            tried += 1
-            lane_no = job['index'] % core.N_LANES
-            hs = core.lane_hash_seed(verif_seed, lane_no)
-            c_loc = lane_no in lanes.C_LOCALE_LANES
-            mini = Minimiser(engine_name, engine, verif_seed, hs, c_loc,
-                             budget_runs=200 if tier == 'quick' else 600, budget_s=45 if tier == 'quick' else 120)
-            matched = None
-            try:
+            # smallest plans first
+            items.sort(key=lambda t: len(core.canon(t[1].get('plan', {}))))
+            full_budget = 2 if tier == 'quick' else 6      # full minimisations spent on plans that look like a listed finding
+            tried = 0
+            for job, res, m in items:
+                plan = res.get('plan')
+                if plan is None:
+                    continue
+                mini, hs, c_loc = mini_for(job)
+                pre = [f for f in known if engine.matches_finding(plan, m, f)]
+                if pre and full_budget <= 0:
+                    # looks like a listed finding even before minimisation and enough of those were
+                    # minimised to the listed signature already: screen it by the finding's
+                    # counterfactual on the un-minimised plan (while that budget lasts).  Anything that
+                    # does NOT pass is minimised and judged below.
+                    if cf_budget > 0:
+                        cf_budget -= 1
+                        if engine.matches_finding(plan, m, pre[0], rerun=mini.run_plan):
+                            known_screened[pre[0]['id']] = known_screened.get(pre[0]['id'], 0) + 1
+                            continue
+                    else:
+                        known_screened[pre[0]['id'] + ' (structural only)'] = known_screened.get(pre[0]['id'] + ' (structural only)', 0) + 1
+                        continue
+                if tried >= (8 if tier == 'quick' else 20):
+                    break
+                tried += 1
+                mini.runs = 0
+                mini.budget_runs, mini.budget_s = (200, 45) if tier == 'quick' else (600, 120)
+                matched = None
                 small = mini.minimise(plan, key)
                 final = mini.run_plan(small)
                 hits = same_class(final, key) if 'harness_error' not in final else []
                 if hits:
                     matched = next((f for f in known if engine.matches_finding(small, hits[0], f, rerun=mini.run_plan)), None)
-            finally:
-                mini.stop()
-            if 'harness_error' in final:
-                harness_errors.append('minimised plan of run %d: %s' % (job['index'], final['harness_error']))
-                continue
-            if not hits:
-                harness_errors.append('run %d: class %s lost during minimisation' % (job['index'], key))
-                continue
-            mm = hits[0]
-            if matched is not None:
-                known_hits[matched['id']] = known_hits.get(matched['id'], 0) + 1
-                if pre:
-                    full_budget -= 1
-                continue
-            dg = core.digest([small, key])
-            if dg in seen_min:
-                continue
-            seen_min.add(dg)
-            rep = {'property': prop, 'engine': engine_name, 'verif_seed': verif_seed, 'run_index': job['index'],
-                   'run_seed': job['req']['seed'], 'hash_seed': hs, 'c_locale': c_loc, 'plan': small,
-                   'violation': mm, 'describe': engine.describe(small, mm), 'minimiser_runs': mini.runs}
-            path = os.path.join(REPLAY_DIR, '%s-%d-%s.json' % (prop, verif_seed, dg[:10]))
-            with open(path, 'w') as fh:
-                json.dump(rep, fh, indent=1, sort_keys=True, default=str)
-            ok = 0
-            for _ in range(2):
-                r2 = replay_in_fresh_process(engine_name, verif_seed, rep)
-                if 'harness_error' not in r2 and same_class(r2, key):
-                    ok += 1
-            if ok < 2:
-                harness_errors.append('replay of %s reproduced %d/2 times' % (path, ok))
-                continue
-            violations.append((path, rep))
-            log('  ' + rep['describe'])
-            log('VIOLATION property=%s replay=%s' % (prop, path))
-            if not keep_going:
-                break
+                if 'harness_error' in final:
+                    harness_errors.append('minimised plan of run %d: %s' % (job['index'], final['harness_error']))
+                    continue
+                if not hits:
+                    harness_errors.append('run %d: class %s lost during minimisation' % (job['index'], key))
+                    continue
+                mm = hits[0]
+                if matched is not None:
+                    known_hits[matched['id']] = known_hits.get(matched['id'], 0) + 1
+                    if pre:
+                        full_budget -= 1
+                    continue
+                dg = core.digest([small, key])
+                if dg in seen_min:
+                    continue
+                seen_min.add(dg)
+                rep = {'property': prop, 'engine': engine_name, 'verif_seed': verif_seed, 'run_index': job['index'],
+                       'run_seed': job['req']['seed'], 'hash_seed': hs, 'c_locale': c_loc, 'plan': small,
+                       'violation': mm, 'describe': engine.describe(small, mm), 'minimiser_runs': mini.runs}
+                path = os.path.join(REPLAY_DIR, '%s-%d-%s.json' % (prop, verif_seed, dg[:10]))
+                with open(path, 'w') as fh:
+                    json.dump(rep, fh, indent=1, sort_keys=True, default=str)
+                ok = 0
+                for _ in range(2):
+                    r2 = replay_in_fresh_process(engine_name, verif_seed, rep)
+                    if 'harness_error' not in r2 and same_class(r2, key):
+                        ok += 1
+                if ok < 2:
+                    harness_errors.append('replay of %s reproduced %d/2 times' % (path, ok))
+                    continue
+                violations.append((path, rep))
+                log('  ' + rep['describe'])
+                log('VIOLATION property=%s replay=%s' % (prop, path))
+                if not keep_going:
+                    break
+    finally:
+        for mn in minis.values():
+            mn.stop()
 
     if violations:
         exit_code = 1
